@@ -227,6 +227,14 @@ let handle (x : sexp) : (string * string) list =
        else
          let show dd = String.concat " | " (List.map (function DOp o -> String.concat " " (List.map show_sel o.op_sels) | DFrag _ -> "frag") dd) in
          [("mismatch", Printf.sprintf "corr:C04/merge model={%s} go={%s}" (show m) (show go_doc))])
+  | L [A "c04overlap"; A id; doc; verdict] ->
+    let s = try Hashtbl.find schemas id with Not_found -> raise (Failure ("unknown schema " ^ id)) in
+    let d = doc_of doc in
+    let go = sbool verdict in
+    let m = go_overlap_ok s d in
+    if m = go then [("ok", if not go then "nt overlap-reject" else "tr")]
+    else [("mismatch", Printf.sprintf "corr:C04/overlap model=%b go=%b doc={%s}" m go
+             (String.concat " | " (List.map (function DOp o -> String.concat " " (List.map show_sel o.op_sels) | DFrag _ -> "frag") d)))]
   | _ -> [("error", "unrecognised case")]
 
 let () = run_lines Sys.argv.(1) Sys.argv.(2) handle
